@@ -55,6 +55,7 @@ type c08Case struct {
 	ProtoB   string `json:"proto"`
 	Persist  string `json:"persist"`
 	FailAt   int    `json:"fail_at,omitempty"`
+	Size     string `json:"size,omitempty"` // "" | relay-N | id-N: RelayState / request ID of N characters (replies that echo them get large)
 }
 
 func (c c08Case) params() ssoP {
@@ -65,6 +66,12 @@ func (c c08Case) params() ssoP {
 		}
 	}
 	p.ACS, p.ProtoB = c.ACS, c.ProtoB
+	if strings.HasPrefix(c.Size, "relay-") {
+		p.Relay = "long-" + strings.TrimPrefix(c.Size, "relay-")
+	}
+	if strings.HasPrefix(c.Size, "id-") && p.ID == "" {
+		p.ID = "long-" + strings.TrimPrefix(c.Size, "id-")
+	}
 	if strings.HasPrefix(c.Persist, "lookup:") {
 		p.Lookup = strings.TrimPrefix(c.Persist, "lookup:")
 	} else {
@@ -86,6 +93,9 @@ func (c c08Case) labels() []string {
 	}
 	if c.Persist != "" {
 		l = append(l, "persist="+c.Persist)
+	}
+	if c.Size != "" {
+		l = append(l, "size="+c.Size)
 	}
 	if c.FailAt > 0 {
 		l = append(l, fmt.Sprintf("writer-fails-at=%d", c.FailAt))
@@ -242,6 +252,16 @@ func runC08(ctx Ctx) int {
 		return 0
 	}
 	var cases []c08Case
+	// large echoed values: every validity class x four ACS shapes x persist ok / error x RelayState / ID sizes around 8 KiB and 64 KiB
+	for _, v := range c08Validities {
+		for _, a := range []string{"", "redirect-only", "post-only", "redirect-default+post"} {
+			for _, ps := range []string{"", "error"} {
+				for _, sz := range []string{"relay-1000", "relay-7000", "relay-8192", "relay-65536", "id-12000", "id-70000"} {
+					cases = append(cases, c08Case{Validity: v.Name, ACS: a, Persist: ps, Size: sz})
+				}
+			}
+		}
+	}
 	for _, v := range c08Validities {
 		for _, a := range c08ACS {
 			for _, b := range c08ProtoB {
